@@ -28,6 +28,7 @@ type c09Client struct {
 	Ops     []string `json:"ops"` // data | host | ka | unk | close | ooo | fin | rst  (close/ooo/fin/rst end the script)
 	StallS   int     `json:"stops_reading_for_s,omitempty"` // websocket: after set-up the client does not read for that long while its host keeps sending
 	ReuseID  bool    `json:"reuses_connection_id,omitempty"` // websocket: the client presents the Rdg-Connection-Id another of its tunnels (same user, same case) is using
+	SimulIn  int     `json:"simultaneous_in,omitempty"` // legacy: that many RDG_IN_DATA requests with the same connection id are sent at the same moment (a client or proxy that retries at once); one of them becomes the tunnel's
 	SecondIn bool    `json:"second_in_early,omitempty"` // legacy: RDG_IN_DATA is retried with the same connection id before the first one sent its preamble
 }
 
@@ -47,6 +48,9 @@ func genC09(t *rapid.T) c09Case {
 	for i := 0; i < k; i++ {
 		cl := c09Client{Kind: genKind(t), StartMs: rapid.IntRange(0, 4).Draw(t, "start")}
 		cl.SecondIn = cl.Kind == "legacy" && rapid.IntRange(0, 4).Draw(t, "secondIn") == 0
+		if cl.Kind == "legacy" && !cl.SecondIn && rapid.IntRange(0, 3).Draw(t, "simulIn") == 0 {
+			cl.SimulIn = rapid.IntRange(2, 8).Draw(t, "simulInN")
+		}
 		cl.ReuseID = cl.Kind == "ws" && rapid.IntRange(0, 3).Draw(t, "reuseID") == 0
 		n := rapid.IntRange(0, 6).Draw(t, "nops")
 		for j := 0; j < n; j++ {
@@ -148,6 +152,28 @@ func runC09Client(i int, cl c09Client, o gwOpts, tgt gwc.Target, from int) (err 
 				l.SendPreamble()
 				conn = l
 			}
+		}
+	} else if cl.SimulIn > 1 && cl.Kind == "legacy" {
+		// a few throw-away connection ids first: the more often the requests meet, the more often a missing lock shows
+		for r := 0; r < 12; r++ {
+			l, won, _ := simulIn(tgt, sess.NewConnID(), cl.SimulIn)
+			if l != nil {
+				l.Close()
+			}
+			if won > 1 {
+				return fmt.Sprintf("client %d: %d simultaneous RDG_IN_DATA requests for one connection id were all accepted (200): more than one packet loop serves the tunnel", i, won)
+			}
+		}
+		var l *gwc.Legacy
+		var won int
+		l, won, e = simulIn(tgt, sess.NewConnID(), cl.SimulIn)
+		if won > 1 {
+			l.Close()
+			return fmt.Sprintf("client %d: %d simultaneous RDG_IN_DATA requests for one connection id were all accepted (200): more than one packet loop serves the tunnel", i, won)
+		}
+		if e == nil {
+			l.SendPreamble()
+			conn = l
 		}
 	} else {
 		id := sess.NewConnID()
@@ -405,6 +431,44 @@ func TestC09_RACE(t *testing.T) {
 		}
 		return nt, cl
 	}, runC09)
+}
+
+// simulIn opens RDG_OUT_DATA and then n RDG_IN_DATA requests for the same connection id at the same moment; the one
+// that is accepted becomes the IN side of the returned connection (its preamble still to be sent).
+func simulIn(tgt gwc.Target, id string, n int) (l *gwc.Legacy, won int, e error) {
+	if l, e = gwc.OpenOut(tgt, id); e != nil {
+		return nil, 0, e
+	}
+	ins := make([]*gwc.Legacy, n)
+	errs := make([]error, n)
+	var wg sync.WaitGroup
+	start := make(chan struct{})
+	for k := range ins {
+		wg.Add(1)
+		go func(k int) {
+			defer wg.Done()
+			<-start
+			ins[k], errs[k] = gwc.OpenInOnlyHeld(tgt, id)
+		}(k)
+	}
+	close(start)
+	wg.Wait()
+	for k := range ins {
+		if errs[k] == nil && ins[k] != nil {
+			won++
+			if won == 1 {
+				l.AdoptIn(ins[k])
+			}
+		}
+		if ins[k] != nil {
+			ins[k].Close()
+		}
+	}
+	if won == 0 {
+		l.Close()
+		return nil, 0, fmt.Errorf("none of %d simultaneous RDG_IN_DATA requests was accepted: %v", n, errs)
+	}
+	return l, won, nil
 }
 
 // c09SharedID: one connection identifier per case (the accept-log position at its start tells the cases apart).
